@@ -9,12 +9,12 @@ use crate::json::J;
 use crate::model::*;
 use crate::rng::Rng;
 
-pub const RULE: &str = "case = one sampling run: dataset of 2..60 DNA or protein sequences (lengths width+1..300; random, with sparse wildcards, one fully masked sequence whose every window holds a wildcard, or tiny datasets whose background lacks symbols; some striped sequences carry more look-ahead rows than the width needs), width 2..30, mode Oops or Zoops (seeds >= 2, several inertia / patience settings), 150..2000 steps, dispatcher forced to each arm. After construction and after EVERY next() the trace checker recomputes from the linear sequences and the reported (active sequences, starts): motif counts = window counts, background = normalised (symbol counts - window counts) of the active sequences, every start + width <= sequence length, Iteration.counts = counts of the previous alignment without the held-out sequence, step increments by one; a twin run with the same data / parameters / seed must give an identical trace. Non-trivial = run in which some start changed; distinct = distinct (dataset, parameters, seed).";
+pub const RULE: &str = "case = one sampling run: dataset of 2..60 DNA or protein sequences (lengths width+1..300; random, with sparse wildcards, one fully masked sequence whose every window holds a wildcard, or tiny datasets whose background lacks symbols; some striped sequences carry more look-ahead rows than the width needs, one in four is hand-built over a matrix taller than it needs; builder temperature in {0, 0.5, 1, 2}), width 2..30, mode Oops or Zoops (seeds >= 2, several inertia / patience settings), 150..2000 steps, dispatcher forced to each arm. After construction and after EVERY next() the trace checker recomputes from the linear sequences and the reported (active sequences, starts): motif counts = window counts, background = normalised (symbol counts - window counts) of the active sequences, every start + width <= sequence length, Iteration.counts = counts of the previous alignment without the held-out sequence, step increments by one; a twin run with the same data / parameters / seed must give an identical trace. Non-trivial = run in which some start changed; distinct = distinct (dataset, parameters, seed).";
 
 pub const REQUIRED: &[&str] = &[
     "alphabet.dna", "alphabet.protein", "mode.oops", "mode.zoops", "arm.dispatch[generic]", "arm.dispatch[sse2]",
     "arm.dispatch[avx2]", "arm.dispatch[auto]", "steps.checked", "start_changed", "zoops.inclusion", "zoops.rejection",
-    "zoops.inactive_holdout", "data.masked_sequence", "data.sparse_background", "data.sampled_striped_sequences", "class.wrap_exceeds_width", "twin.compared", "dispatch_forced.generic",
+    "zoops.inactive_holdout", "data.masked_sequence", "data.sparse_background", "data.sampled_striped_sequences", "class.wrap_exceeds_width", "param.temperature=0", "param.temperature!=1", "data.hand_built_taller_matrix", "twin.compared", "dispatch_forced.generic",
     "dispatch_forced.sse2", "dispatch_forced.avx2",
 ];
 
@@ -66,7 +66,9 @@ fn run_once<A: Alphabet>(
             .iter()
             .enumerate()
             .map(|(i, s)| {
-                let mut st: StripedSequence<A, U32> = stripe_generic(&encoded::<A>(s));
+                // one sequence in four is built by hand over a matrix taller than it needs
+                // (StripedSequence::new: the stripe height is the matrix row count)
+                let mut st: StripedSequence<A, U32> = if (s.len() + i) % 4 == 1 { stripe_tall(s, 1 + (i % 3)) } else { stripe_generic(&encoded::<A>(s)) };
                 // some sequences carry more look-ahead rows than the width needs (they served a
                 // longer motif before); a function of the data only, so that repeated runs agree
                 st.configure_wrap(width + extra_wrap(s.len(), width, i));
@@ -75,6 +77,9 @@ fn run_once<A: Alphabet>(
             .collect(),
     };
     let data = SamplerData::new(&striped);
+    // the builder's temperature (a function of the seed so that twin runs agree); whatever it is,
+    // every reported state must stay a recomputation from the reported alignment
+    let temperature = [1.0f64, 0.0, 0.5, 2.0, 1.0][(rng_seed % 5) as usize];
     let mut trace: Vec<Snapshot> = Vec::new();
     let mut rep = rep;
     if striped.iter().any(|s| s.wrap() > width) {
@@ -82,15 +87,27 @@ fn run_once<A: Alphabet>(
             r.cover("class.wrap_exceeds_width");
         }
     }
+    if let Some(r) = rep.as_mut() {
+        if temperature == 0.0 {
+            r.cover("param.temperature=0");
+        }
+        if temperature != 1.0 {
+            r.cover("param.temperature!=1");
+        }
+        if sampled.is_none() && striped.iter().enumerate().any(|(i, s)| s.matrix().rows() - s.wrap() > (seqs[i].len() + 31) / 32) {
+            r.cover("data.hand_built_taller_matrix");
+        }
+    }
     let fail = |kind: &str, msg: String, step: usize| (kind.to_string(), msg, desc.clone().set("failing_step", J::u(step)));
 
     let built = guard(|| {
         force(arm);
         let s: Sampler<'_, Rng, A, &Vec<StripedSequence<A, U32>>, U32> = match mode {
-            SamplerMode::Oops if inertia.is_none() && patience.is_none() => Sampler::new(&data, width, Rng::new(rng_seed)),
+            SamplerMode::Oops if inertia.is_none() && patience.is_none() && temperature == 1.0 => Sampler::new(&data, width, Rng::new(rng_seed)),
             _ => {
                 let mut b = SamplerBuilder::new(&data);
                 b.width(width).mode(mode.clone());
+                b.temperature(temperature);
                 if mode == SamplerMode::Zoops {
                     b.seeds(seeds);
                 }
